@@ -42,6 +42,9 @@ pub fn profiles() -> Vec<Profile> {
     vec![p0, p1, p2]
 }
 
+/// panics met while recording the unfaulted connects (conforming server): (profile, panic)
+pub static CLEAN_CONNECT_PANICS: Mutex<Vec<(String, mon::PanicInfo)>> = Mutex::new(Vec::new());
+
 /// run a clean connect and capture every server message with its field map
 pub fn record_templates(profile: &Profile, tls: bool) -> Vec<Template> {
     let mut p = profile.clone();
@@ -63,7 +66,11 @@ pub fn record_templates(profile: &Profile, tls: bool) -> Vec<Template> {
     });
     let mut cfg = ConnCfg::default();
     cfg.nla = false;
-    let _ = if tls { client::connect_real(&cfg, d.clone()).map(|_| ()) } else { client::connect_plain(&cfg, d.clone()).map(|_| ()) };
+    // the clean connect runs the code under test too: a panic here is recorded and reported by run()
+    let d2 = d.clone();
+    if let Err(p) = mon::guarded(move || if tls { client::connect_real(&cfg, d2.clone()).map(|_| ()) } else { client::connect_plain(&cfg, d2.clone()).map(|_| ()) }) {
+        CLEAN_CONNECT_PANICS.lock().unwrap().push((format!("profile user_id={} version={:#x} core_optional={} tls={}", profile.user_id, profile.version, profile.core_optional, tls), p));
+    }
     let inner = inner.lock().unwrap().clone();
     let frames = frames.lock().unwrap().clone();
     let mut out: Vec<Template> = Vec::new();
@@ -356,6 +363,16 @@ fn run_variant(variants: &[(String, Profile)], idx: u64, rep: &mut Report) {
     judge("C05", &format!("value:{}", name.split('=').next().unwrap_or("")), &plan.mutant.class, &o, json!({"value_variant": name, "tls": tls}), rep);
 }
 
+fn report_clean_connect_panics(total: &mut Report) {
+    let mut seen = std::collections::BTreeSet::new();
+    for (prof, p) in CLEAN_CONNECT_PANICS.lock().unwrap().drain(..) {
+        if seen.insert((prof.clone(), p.sig())) {
+            total.eval();
+            total.violation(format!("C05/clean-connect/{}", p.sig()), format!("a connect against the conforming reference server ({}) panicked: {} at {}:{}", prof, p.msg, p.file, p.line), json!({"clean_connect": prof}));
+        }
+    }
+}
+
 pub fn run(cfg: &Cfg) -> Report {
     let seed = cfg.seed;
     let profs = profiles();
@@ -437,7 +454,7 @@ pub fn run(cfg: &Cfg) -> Report {
     // class 3: all short byte strings at each parser entry (length <= 3 quick; <= 4 at the three cheapest in thorough)
     if cfg.wants(3) {
         for (e, _) in ENTRIES.iter().enumerate() {
-            let maxlen = if cfg.quick() { if e == 2 || e == 3 { 3 } else { 2 } } else if e >= 4 && e <= 6 { 4 } else { 3 };
+            let maxlen = if cfg.quick() { if e == 0 || e == 2 || e == 3 { 3 } else { 2 } } else if e >= 4 && e <= 6 { 4 } else { 3 };
             let n = fault::short_string_count(maxlen);
             let rep = par_run(cfg, n, 8192, |idx, rep| {
                 mon::begin_case(5, 10 + e as u64, idx, seed);
@@ -476,6 +493,7 @@ pub fn run(cfg: &Cfg) -> Report {
             total.merge(rep);
         }
     }
+    report_clean_connect_panics(&mut total);
     let _ = Wrap::Tpkt;
     total
 }
@@ -507,6 +525,15 @@ pub fn replay(cfg: &Cfg, v: &Value) -> Report {
                 rep.inconclusive("death case of a class that cannot be regenerated individually");
             }
         }
+        return rep;
+    }
+    if v.get("clean_connect").is_some() {
+        for p in profs.iter() {
+            let _ = record_templates(p, false);
+            let _ = record_templates(p, true);
+        }
+        rep.eval();
+        report_clean_connect_panics(&mut rep);
         return rep;
     }
     if let Some(name) = v.get("value_variant").and_then(|x| x.as_str()) {
